@@ -6,7 +6,7 @@ from oracle_util import *  # noqa
 from protocol import from_real, pm
 
 ID = "C12"
-LEAN_MODULE = ["SCoda.Props.C13", "SCoda.Props.C12"]
+LEAN_MODULE = ["SCoda.Props.C13", "SCoda.Props.C12", "SCoda.Props.C12b"]
 CLAUSES = [
     ("one sequence per saved sequence, in the same order", ["SCoda.C13.one_per_group"]),
     ("save: summing the delta times of the written track puts every emitted event back on its original tick, in order, with pitch and velocity kept "
@@ -16,8 +16,11 @@ CLAUSES = [
     ("end-to-end notes: save ∘ codec ∘ load returns one sequence per saved sequence and sequence i sounds exactly what saved sequence i sounded "
      "(pitch, onset, duration as the sounding set at every tick; everything comes back on channel 0)",
      ["SCoda.C13.save_load_sounding", "SCoda.C13.load_sounding"]),
-    ("end-to-end velocities and signatures in force (velocity of every note-on kept; time/key signature in force at every tick on the meta sequence = the saved one, "
-     "4/4 from tick 0 when nothing is saved there)", None),
+    ("end-to-end velocities and signatures in force: the note-on events (pitch, tick, velocity) of loaded sequence i are those of saved sequence i; "
+     "the time / key signature in force at every tick on the meta sequence is the one in force among everything saved, 4/4 from tick 0 when nothing "
+     "is saved there — for signature messages that carry their own fields only and no two saved signatures of a kind on one tick "
+     "(without the field hypothesis the statement is false of the model: `save_load_signatures_statement_false`, a time signature carrying a key)",
+     ["SCoda.C13.save_load_note_ons", "SCoda.C13.save_load_signatures_partial", "SCoda.C13.save_load_signatures_statement_false"]),
 ]
 RULE = ("lists of 1-3 integer-tick well-formed single-channel sequences (<=6 notes, velocities 1..127, all 15 keys, "
         "signatures at arbitrary ticks on distinct ticks, leading rests); real file round trip through mido in a temp dir; "
